@@ -64,6 +64,7 @@ structure Comm where
   delivered : Option Nat := none    -- what copy_data wrote to the receiver
   writes : Nat := 0                 -- ghost: number of times copy_data copied
   detached : Bool := false
+  mboxSet : Bool := true            -- mbox_ != nullptr while queued (find_matching_comm resets it, even for iprobe)
   sendEv : Option Nat := none       -- ghost: index of the isend call
   recvEv : Option Nat := none       -- ghost: index of the irecv call
   sfilt : Filter := .none           -- ghost: the sender's match function
@@ -192,6 +193,24 @@ def iprobeRecv (s : Mbox) (f : Filter) (d : Option MData) : Option Comm :=
   match inDone with
   | some c => some c
   | none => s.queue.find? (accepts .send f d)
+
+/-- `find_matching_comm(…, remove_matching = false)` still executes `comm->set_mailbox(nullptr)` on the comm it
+found, although the comm stays in the deque: after an iprobe hit the queued comm has `mbox_ == nullptr`. -/
+def iprobeMark (s : Mbox) (f : Filter) (d : Option MData) : Mbox :=
+  match iprobeRecv s f d with
+  | some c =>
+    { s with next := s.next + 1,
+             queue := s.queue.map (fun x => if x.id == c.id then { x with mboxSet := false } else x),
+             done := s.done.map (fun x => if x.id == c.id then { x with mboxSet := false } else x) }
+  | none => { s with next := s.next + 1 }
+
+/-- `CommImpl::cancel()` on a WAITING, non-detached comm does `mbox_->remove(this)`: a null dereference when an
+iprobe has reset `mbox_` (reproduced: segmentation fault).  `clear()` cancels the same way. -/
+def cancelCrashes (s : Mbox) (id : Nat) : Bool :=
+  match s.queue.find? (fun c => c.id == id) with
+  | some c => !c.detached && !c.mboxSet
+  | none => false
+def clearCrashes (s : Mbox) : Bool := s.queue.any (fun c => c.state == .waiting && !c.detached && !c.mboxSet)
 
 /-- kernel calls on one mailbox -/
 inductive Ev where
